@@ -65,6 +65,12 @@ CLAIMED = {
         text="seek is translated from the Python source on every run and proved equal to the specification's rule (target in [0,count) accepted for SET/CUR/END and every integer pos, IndexError otherwise, ValueError for another whence); step_refines/C05_refines: for every finite sequence over read_points(n in Z), seek, next(chunk_iterator(k)) and read(), outputs and final cursor equal the cursor model's; reads return min(n, remaining) from the cursor (all remaining for n<0), never reach beyond the point count, and an exhausted or empty file yields empty slices; a refused seek leaves the cursor unchanged; at byte level a read at cursor c of l points returns exactly the bytes of records c..c+l-1. Correspondence: seeded and (thorough) exhaustive short histories on real readers over files of 0/1/many points with trailing EVLRs, each returned block located in the full point array.",
         note="Trusted: Lean kernel; translator subset (Int arithmetic, range membership); BytesIO/file seek+readinto semantics for the byte-level claim (well-formed files; truncated files are C19).",
         design="6 (C05)"),
+    "C06": dict(
+        engine="fileio",
+        technique="Lean 4 proof that the appender on a writer-produced file yields byte for byte the writer's file of the concatenation (store-shape induction over chunks, header-encoding congruence, float laws for the extrema), lifted to any number of sessions by induction; byte comparison with real LasAppender sessions and with one-shot files written by laspy",
+        text="C06_bytes: for every original written by a writer session (any chunking, any EVLRs in normal form, every legal header) and every sequence of appended chunks (empty ones included), appendSession leaves exactly the bytes of the one-shot session over original ++ appended points: same point sequence, exact count / histogram / extrema, VLRs untouched, EVLRs re-emitted right after the new points with the pointer updated; C06_sessions lifts this to any number of successive sessions; C06_format: another point format or record length is refused without a new state. The model's appendSession is compared byte for byte with real LasAppender sessions (1-3 sessions, every version/format pair, empty originals) and the result with the one-shot file laspy writes; rescaling of scale-aware records with a different scaling is checked by the direct oracle (coordinates within half a step, caller's records unchanged) and proved in exact arithmetic under C11.",
+        note="Trusted: FloatLaws + BitsRoundTrip (struct.pack/unpack inverse on the doubles that occur) as explicit hypotheses; BytesIO write-at-position semantics (writeAt); originals not written by laspy (gaps before EVLRs, non-canonical padding) are outside C06_bytes and only get the oracle's point-sequence / EVLR checks.",
+        design="6 (C06)"),
 }
 NOT_YET = "check not built yet in this round (planned per DESIGN.md section 10); not claimed until its theorems build and its check is quiet"
 
